@@ -20,7 +20,8 @@ TInit == /\ Init /\ l = 1 /\ plan = <<>>
 \* a new scenario: the machine restarts in the recorded scenario
 T_Start ==
   /\ IsEv("start") /\ (pc = "done" \/ l = 1)
-  /\ scn' = [shape |-> Rec[l].shape, denial |-> Rec[l].denial, qk |-> Rec[l].qk]
+  /\ scn' = [shape |-> Rec[l].shape, denial |-> Rec[l].denial, qk |-> Rec[l].qk,
+             anc |-> Rec[l].anc, cfg |-> Rec[l].cfg]
   /\ plan' = Rec[l].adv
   /\ budget' = Len(Rec[l].adv) /\ advlog' = <<>>
   /\ pc' = "wire" /\ pend' = [t |-> "ANS", z |-> Leaf(Rec[l].shape)]
